@@ -182,7 +182,7 @@ func vfC22Case(rep *vk.Report, d *vfDB, dbi, qi, ncfg int, th *Thread) {
 func vfC22Check(rep *vk.Report, d *vfDB, dbi, qi int, q *vfQuery, r *rand.Rand, ncfg int, th *Thread) {
 	text := q.text()
 	rep.Case("db %d case %d: %s", dbi, qi, text)
-	relV, openV, big1 := vfModelResult(d, q.root, false)
+	relV, openV, packDis, big1 := vfModelResult2(d, q.root, false)
 	relR, openR, big2 := vfModelResult(d, q.root, true)
 	if big1 || big2 {
 		rep.Count("model_too_big", 1)
@@ -286,7 +286,15 @@ func vfC22Check(rep *vk.Report, d *vfDB, dbi, qi int, q *vfQuery, r *rand.Rand, 
 				} else if len(onlyE) == 0 {
 					cl = "C22/rows-differ/missing"
 				}
-				if lbl := vfC22Diagnose("rows", "", "", res, q, cols, len(onlyM) == 0 && vfAllIn(onlyE, relV.rows, cols)); lbl != "" {
+				kind, m := "rows", ""
+				if len(onlyM) == 0 {
+					m = "extra-only"
+				}
+				lbl := vfC22Diagnose(kind, m, "", res, q, cols, len(onlyM) == 0 && vfAllIn(onlyE, relV.rows, cols))
+				if lbl == "" && packDis > 0 {
+					lbl = vfC22Diagnose("rows+packorder", "", "", res, q, cols, false)
+				}
+				if lbl != "" {
 					cl = "C22/rows-differ/" + lbl
 				}
 				rep.Violate(cl, key(cfg), w)
@@ -296,7 +304,8 @@ func vfC22Check(rep *vk.Report, d *vfDB, dbi, qi int, q *vfQuery, r *rand.Rand, 
 		// ordering promised by sort / by an order requirement
 		if len(q.sort) > 0 {
 			rev := q.reverse != (cfg.dir == Prev)
-			if i := vfOrdered(res.rows, q.sort, rev); i >= 0 {
+			if i, pk := vfOrdered2(res.rows, q.sort, rev); i >= 0 {
+				vfPackOrderPair = pk
 				w := witness(cfg, res, fmt.Sprintf("sort order violated at row %d: %s then %s", i, vfRowText(res.rows[i-1], q.sort), vfRowText(res.rows[i], q.sort)))
 				cl := "C22/sort-order"
 				if lbl := vfC22Diagnose("order", "", "", res, q, cols, false); lbl != "" {
@@ -306,7 +315,8 @@ func vfC22Check(rep *vk.Report, d *vfDB, dbi, qi int, q *vfQuery, r *rand.Rand, 
 			}
 			rep.Count("order_checks", 1)
 		} else if cfg.setup == "order" {
-			if i := vfOrdered(res.rows, cfg.reqCols, cfg.dir == Prev); i >= 0 {
+			if i, pk := vfOrdered2(res.rows, cfg.reqCols, cfg.dir == Prev); i >= 0 {
+				vfPackOrderPair = pk
 				w := witness(cfg, res, fmt.Sprintf("required order violated at row %d: %s then %s", i, vfRowText(res.rows[i-1], cfg.reqCols), vfRowText(res.rows[i], cfg.reqCols)))
 				cl := "C22/required-order"
 				if lbl := vfC22Diagnose("order", "", "", res, q, cols, false); lbl != "" {
@@ -317,128 +327,4 @@ func vfC22Check(rep *vk.Report, d *vfDB, dbi, qi int, q *vfQuery, r *rand.Rand, 
 			rep.Count("order_checks", 1)
 		}
 	}
-}
-
-// vfC22Diagnose recognises the engine defects that were analysed (see known_findings.d/C22.jsonl) from the
-// failure itself, so that each gets its own violation class and any other failure keeps a generic class.
-func vfC22Diagnose(kind, msg, stack string, res *vfResult, q *vfQuery, cols []string, onlyDups bool) string {
-	strategy := ""
-	var ecols []string
-	if res != nil {
-		strategy, ecols = res.strategy, res.cols
-	}
-	// a summarize without by columns that has (or can be reduced by a project to) a single min/max
-	minmaxNoBy := vfHasNode(q.root, func(n *vfNode) bool {
-		return n.op == "summarize" && len(n.cols) == 0 && (slices.Contains(n.sops, "min") || slices.Contains(n.sops, "max"))
-	})
-	switch kind {
-	case "panic-get":
-		if strings.Contains(stack, "ProjectNone).hasRow") && strings.Contains(stack, "query.hashCols") {
-			return "ProjectNone.hasRow-nil-thread"
-		}
-		if strings.Contains(stack, "(*SemiJoin).Select") && strings.Contains(strategy, "semijoin-rev") &&
-			(strings.Contains(msg, "Sels.Get can't find") || strings.Contains(stack, "query.selEnd")) {
-			return "semijoin-reverse-select-off-index"
-		}
-		if strings.Contains(msg, "selOrg not full") && strings.Contains(stack, "(*Union).getLookup") &&
-			strings.Contains(stack, "(*Compatible).source2Has") && strings.Contains(strategy, "union-disjoint(") {
-			return "union-disjoint-lookup-source2Has"
-		}
-	case "order":
-		// order taken from the second source of a reversed semijoin by(...) although the column is not a by column
-		if strings.Contains(strategy, "semijoin-rev") && vfHasNode(q.root, func(n *vfNode) bool {
-			return n.op == "semijoin" && n.printBy && len(n.cols) > 0 && len(vfCommon(n.src.out, n.src2.out)) > len(n.cols)
-		}) {
-			return "semijoin-reverse-order-from-source2"
-		}
-	case "panic-setup":
-		if minmaxNoBy && (strings.Contains(msg, "column already exists") || strings.Contains(msg, "common columns not allowed") ||
-			strings.Contains(msg, "nonexistent column") || strings.Contains(msg, "already exist") ||
-			strings.Contains(msg, "by does not match common columns")) {
-			return "summarize-record-after-transform"
-		}
-	case "columns":
-		if minmaxNoBy && vfSubset(cols, ecols) && len(ecols) > len(cols) {
-			return "summarize-record-after-transform"
-		}
-	case "rows":
-		// a min/max summarize that returns the record, below a project/remove, and no summarize left in the strategy
-		if !strings.Contains(strategy, "summarize") && vfHasNode(q.root, func(n *vfNode) bool { return n.wholeRow }) {
-			return "summarize-record-after-transform"
-		}
-		// only duplicates of correct rows, and some where tests a column against "" among other values
-		if onlyDups && strings.Contains(strategy, " where ") && vfHasNode(q.root, func(n *vfNode) bool {
-			return n.op == "where" && vfHasEmptyAlternative(n.expr)
-		}) {
-			return "where-index-range-empty-value-overlap"
-		}
-		// the by-less min/max summarize is an operand of another operator and runs with the index strategy
-		if minmaxNoBy && q.root.op != "summarize" && strings.Contains(strategy, "summarize-idx") {
-			return "summarize-idx-select-on-aggregated-column"
-		}
-	}
-	return ""
-}
-
-func vfDumpModel(d *vfDB, n *vfNode, indent int) {
-	if n == nil {
-		return
-	}
-	vfDumpModel(d, n.src, indent+1)
-	vfDumpModel(d, n.src2, indent+1)
-	if n.def != nil {
-		vfDumpModel(d, n.def, indent+1)
-	}
-	rel, _, _ := vfModelResult(d, n, false)
-	in := strings.Repeat("  ", indent)
-	fmt.Println(in+"## ", n.text())
-	if rel != nil {
-		for _, l := range vfRowsText(rel.rows, rel.cols, 30) {
-			fmt.Println(in+"     ", l)
-		}
-	}
-}
-
-// vfAllIn: every row text of extra occurs among rows (i.e. the extra rows are duplicates of correct rows).
-func vfAllIn(extra []string, rows []vfRow, cols []string) bool {
-	have := map[string]bool{}
-	for _, r := range rows {
-		have[vfRowText(r, cols)] = true
-	}
-	for _, e := range extra {
-		if !have[e] {
-			return false
-		}
-	}
-	return len(extra) > 0
-}
-
-// vfHasEmptyAlternative: an in list or an or of equalities that contains the constant "".
-func vfHasEmptyAlternative(e *vfExpr) bool {
-	if e == nil {
-		return false
-	}
-	if e.op == "in" || e.op == "or" {
-		var has func(x *vfExpr) bool
-		has = func(x *vfExpr) bool {
-			if x.op == "const" && vfIsEmpty(x.lit.v) {
-				return true
-			}
-			for _, a := range x.args {
-				if has(a) {
-					return true
-				}
-			}
-			return false
-		}
-		if has(e) {
-			return true
-		}
-	}
-	for _, a := range e.args {
-		if vfHasEmptyAlternative(a) {
-			return true
-		}
-	}
-	return false
 }
